@@ -73,6 +73,13 @@ def run(ctx):
         "accounting is the manual heap's bytes_allocated(); std.bytes buffers are not charged anywhere in the code (noted in notes/C09.md)",
     ]
     proved = ctx.prove("C09", extracted=["ManualMem", "ValueConsts", "MemChecks"])
+    try:
+        fb = re.findall(r"\(\* FALLBACK[^\n]*", open(os.path.join(vlib.COQ, "Extracted", "MemChecks.v")).read())
+        if fb:
+            ctx.notes.append("operand-check tables: source shape not recognised, reference tables used (end-to-end tie still runs): " + " | ".join(fb)[:600])
+        ctx.cov["operand_check_tables"] = "fallback" if fb else "regenerated from source"
+    except OSError:
+        pass
     if ctx.tier == "thorough" and proved:
         ctx.coqchk("C09")
     ok, out = vlib.coq_make(["Base/CaseCheck.vo", "Model/ManualHeapObs.vo", "Model/BytesObs.vo"])
@@ -111,6 +118,23 @@ def run(ctx):
             ctx.broken.append("harness build failed (hx_mheap, %s)" % prof)
             ctx.log(log[-3000:])
             return
+        # boundary scenario at MAX_ALLOC (value read from the source by the translator); oracle only
+        if not replay:
+            try:
+                mx = int(re.search(r"Definition MAX_ALLOC : N := (\d+)%N", open(os.path.join(vlib.COQ, "Extracted", "ManualMem.v")).read()).group(1))
+            except Exception:
+                mx = None
+            if mx and mx <= (1 << 30):
+                rc, out, _, oracle, dist, harness = run_harness(ctx, paths["hx_mheap"], "byteslimits", ctx.seed, 1, 1, ["--max-alloc", str(mx)])
+                if rc != 0:
+                    ctx.violation("hx_mheap-crash:byteslimits", "std.bytes boundary scenario crashed", {"output_tail": out[-1500:]})
+                for k, v in dist.items():
+                    dist_all["byteslimits:" + k] = dist_all.get("byteslimits:" + k, 0) + v
+                for sig, detail, hist in oracle:
+                    ctx.cov["direct_oracle_failures"] += 1
+                    ctx.violation(sig, detail, {"surface": "byteslimits", "profile": prof, "history": hist, "max_alloc": mx})
+                if harness:
+                    ctx.broken.append("harness C09 (byteslimits): " + harness[0][:300])
         for surface, n in plan.items():
             runs = [("corpus:" + name, ["--replay-ops", ops]) for name, ops in corpus_cases(surface)] + [(None, [])]
             if replay:
@@ -119,9 +143,20 @@ def run(ctx):
                 rc, out, cases, oracle, dist, harness = run_harness(
                     ctx, paths["hx_mheap"], surface, ctx.seed, n if tag is None else 1, maxlen, extra)
                 if rc != 0:
+                    # find the operation that brought the process down: same run again with a step trace
+                    rc2, out2 = vlib.sh([paths["hx_mheap"], "--seed", str(ctx.seed), "--hist", str(n if tag is None else 1), "--maxlen", str(maxlen),
+                                         "--surface", surface, "--trace"] + extra, timeout=1500)
+                    steps_seen = [l.split("\t") for l in out2.splitlines() if l.startswith("#STEP\t")]
+                    hist_ops = []
+                    for f in reversed(steps_seen):           # the steps of the last (crashing) history
+                        hist_ops.append(f[3])
+                        if f[2] == "0":
+                            break
+                    hist_ops.reverse()
                     ctx.violation("hx_mheap-crash:" + surface,
-                                  "manual-memory harness crashed (abort/panic escaping the implementation?)",
-                                  {"surface": surface, "profile": prof, "seed": ctx.seed, "output_tail": out[-2500:]})
+                                  "the process running the implementation died (abort / stack overflow / allocation failure) on the last operation of the recorded history",
+                                  {"surface": surface, "profile": prof, "seed": ctx.seed, "history": "; ".join(hist_ops)[-3000:],
+                                   "last_operation": hist_ops[-1] if hist_ops else None, "exit_code": rc, "output_tail": out[-800:]})
                     continue
                 if harness:
                     ctx.broken.append(f"harness C09 ({surface}): generated program did not run as intended: {harness[0][:300]}")
